@@ -27,6 +27,7 @@
 EXTENDS Integers, Sequences, FiniteSets, TLC, Json
 
 CONSTANTS
+    AdminUnchecked, \* the role test only knows "write": a route that needs "admin" passes it (rbac.go HasAccess)
     SuffixRole,     \* required role derived from method + last path segment (middleware.go)
     BodyFieldOnly,  \* namespace of a POST body is whatever its "index_name" field says
     PathSplit,      \* namespace of a path is the 4th "/"-separated piece of the decoded path
@@ -208,11 +209,14 @@ SeenNs(c) ==
 
 NsGranted(c) == c.tok.ns = "all" \/ SeenNs(c) = "own"
 
+RoleTooLow(c) == IF AdminUnchecked THEN ReqRole(c) = "write" /\ c.tok.role # "write"
+                 ELSE Rank[c.tok.role] < Rank[ReqRole(c)]
+
 Decide(c) ==
     IF c.shape.class \in PublicClasses THEN "serve"
     ELSE IF ~Authentic(c.tok) THEN "unauth"
     ELSE IF Global(c.tok) THEN "serve"
-    ELSE IF Rank[c.tok.role] < Rank[ReqRole(c)] THEN "forbidden"
+    ELSE IF RoleTooLow(c) THEN "forbidden"
     ELSE IF ~NsGranted(c) THEN "forbidden"
     ELSE "serve"
 
